@@ -42,6 +42,39 @@ fn one(c: Call) -> Vec<Call> {
     vec![c]
 }
 
+/// The same call with the argument at one position replaced, one call per (position, value):
+/// an authorisation recorded for any of these must not open the real call.
+fn arg_variants(env: &Env, contract: &Address, func: &'static str, args: SVec<Val>, alts: Vec<(u32, Val)>) -> Vec<Call> {
+    alts.into_iter()
+        .map(|(i, v)| {
+            let mut a = args.clone();
+            a.set(i, v);
+            let c = contract.clone();
+            let _ = env;
+            Rc::new(move |env: &Env| match env.try_invoke_contract::<Val, soroban_sdk::Error>(&c, &Symbol::new(env, func), a.clone()) {
+                Ok(Ok(_)) => Ok(()),
+                Ok(Err(e)) => Err(format!("{:?}", e)),
+                Err(e) => Err(format!("{:?}", e)),
+            }) as Call
+        })
+        .collect()
+}
+
+/// The named address grants allowances on `tokens` to `spenders` (contracts taking part in the
+/// call, the token itself): none of them makes anybody else's authorisation sufficient.
+fn grant_allowances(u: &mut U, tokens: &[Address], from: &Address, spenders: &[Address]) {
+    let exp = u.seq() + 400;
+    let (ts, f, ss) = (tokens.to_vec(), from.clone(), spenders.to_vec());
+    u.setup(move |env| {
+        for t in &ts {
+            for sp in &ss {
+                let _ = soroban_sdk::token::TokenClient::new(env, t).try_approve(&f, sp, &1_000_000, &exp);
+            }
+        }
+    });
+    u.skip_events();
+}
+
 const GROUPS: [&str; 6] = ["token", "gas-service", "gateway", "its", "operators", "example"];
 
 fn matrix(rep: &mut Report, u: &mut U, ep: &Ep, stranger: &Address, state: &str) {
@@ -208,8 +241,23 @@ pub fn run(ctx: &Ctx, rep: &mut Report) {
                     // mint_from: other recipient
                     eps[5].other_args.push({ let (m, to) = (m1.clone(), x.clone()); mk(Rc::new(move |cl, _| flat(cl.try_mint_from(&m, &to, &10)))) });
                 }
+                {
+                    let e = u.env.clone();
+                    // transfer_from / burn_from: other owner of the funds
+                    eps[2].other_args.extend(arg_variants(&e, &tk, "transfer_from", (b.clone(), a.clone(), c.clone(), 10i128).into_val(&e), vec![(1, stranger.clone().into_val(&e))]));
+                    eps[4].other_args.extend(arg_variants(&e, &tk, "burn_from", (b.clone(), a.clone(), 10i128).into_val(&e), vec![(1, stranger.clone().into_val(&e))]));
+                }
                 for ep in &eps {
                     matrix(rep, &mut u, ep, &stranger, "with-allowance");
+                }
+                // the holder has also granted allowances to the token contract itself and to the owner
+                {
+                    let ck = u.checkpoint();
+                    grant_allowances(&mut u, &[tk.clone()], &a, &[tk.clone(), owner.clone(), minter.clone()]);
+                    for ep in eps.iter().filter(|e| e.named == a) {
+                        matrix(rep, &mut u, ep, &stranger, "with-allowance+allowances-to-contract-and-roles");
+                    }
+                    u.restore(&ck);
                 }
                 // states without an allowance: nobody's authorisation may move the owner's funds,
                 // whoever the recipient is (the spender itself, the owner of the funds, a third party)
@@ -286,9 +334,40 @@ pub fn run(ctx: &Ctx, rep: &mut Report) {
                         Ep { valid: true, name: "gas-service.pay_gas", named: spender.clone(), counterparty: Some(app.clone()), owner: Some(owner.clone()), call: mk(10, false), other_args: one(mk(11, false)) },
                         Ep { valid: true, name: "gas-service.add_gas", named: spender.clone(), counterparty: Some(collector.clone()), owner: Some(owner.clone()), call: mk(10, true), other_args: one(mk(11, true)) },
                     ];
-                    for ep in &eps {
-                        matrix(rep, &mut u, ep, &stranger, if kind == TokKind::Sac { "asset-contract" } else { "interchain-token" });
+                    let mut eps = eps;
+                    {
+                        let e = u.env.clone();
+                        let other_tok = make_token(&mut u, TokKind::Sac, &admin, &mut rng);
+                        mint(&mut u, &other_tok, &spender, 1000);
+                        let t10 = Token { address: tok.addr.clone(), amount: 10 };
+                        let t_other = Token { address: other_tok.addr.clone(), amount: 10 };
+                        let pay: SVec<Val> = (app.clone(), sstr(&e, b"dest"), sstr(&e, b"0xd"), sbytes(&e, b"payload"), spender.clone(), t10.clone(), sbytes(&e, b"")).into_val(&e);
+                        eps[0].other_args.extend(arg_variants(&e, &gs, "pay_gas", pay, vec![
+                            (0, stranger.clone().into_val(&e)),
+                            (1, sstr(&e, b"dest2").into_val(&e)),
+                            (2, sstr(&e, b"0xe").into_val(&e)),
+                            (3, sbytes(&e, b"payload2").into_val(&e)),
+                            (5, t_other.clone().into_val(&e)),
+                            (6, sbytes(&e, b"meta").into_val(&e)),
+                        ]));
+                        let add: SVec<Val> = (app.clone(), sstr(&e, b"m-1"), spender.clone(), t10.clone()).into_val(&e);
+                        eps[1].other_args.extend(arg_variants(&e, &gs, "add_gas", add, vec![
+                            (0, stranger.clone().into_val(&e)),
+                            (1, sstr(&e, b"m-2").into_val(&e)),
+                            (3, t_other.into_val(&e)),
+                        ]));
                     }
+                    let state = if kind == TokKind::Sac { "asset-contract" } else { "interchain-token" };
+                    for ep in &eps {
+                        matrix(rep, &mut u, ep, &stranger, state);
+                    }
+                    // the spender has pre-approved the gas service (and the application) on the gas token
+                    let ck = u.checkpoint();
+                    grant_allowances(&mut u, &[tok.addr.clone()], &spender, &[gs.clone(), app.clone(), tok.addr.clone()]);
+                    for ep in &eps {
+                        matrix(rep, &mut u, ep, &stranger, &format!("{}+allowance-to-gas-service", state));
+                    }
+                    u.restore(&ck);
                 }
             }
             "gateway" => {
@@ -333,6 +412,14 @@ pub fn run(ctx: &Ctx, rep: &mut Report) {
                 let mut eps = eps;
                 eps[1].other_args.push(mk_val(m_other_src));
                 eps[1].other_args.push(mk_val(m_other_id));
+                let mut m_other_chain = m.clone();
+                m_other_chain.source_chain.push(b'2');
+                eps[1].other_args.push(mk_val(m_other_chain));
+                {
+                    let e = u.env.clone();
+                    let cc: SVec<Val> = (caller.clone(), sstr(&e, b"dest"), sstr(&e, b"0xd"), sbytes(&e, b"payload-1")).into_val(&e);
+                    eps[0].other_args.extend(arg_variants(&e, &g.addr, "call_contract", cc, vec![(1, sstr(&e, b"dest2").into_val(&e)), (2, sstr(&e, b"0xe").into_val(&e))]));
+                }
                 for ep in &eps {
                     matrix(rep, &mut u, ep, &stranger, "approved");
                 }
@@ -362,6 +449,7 @@ pub fn run(ctx: &Ctx, rep: &mut Report) {
             "its" => {
                 let mut w = ItsWorld::new(&mut rng, b"stellar", b"hub", 3);
                 w.trust(b"ethereum");
+                w.trust(b"avalanche");
                 let caller = w.users[0].clone();
                 let other_user = w.users[1].clone();
                 let payer = w.users[2].clone();
@@ -439,8 +527,56 @@ pub fn run(ctx: &Ctx, rep: &mut Report) {
                 let stranger = w.stranger.clone();
                 let mut eps = eps;
                 eps[3].other_args.push(mk_transfer_to(b"ethereum", b"0xattacker"));
+                let canon_id = w.view_canonical_id(&sac.addr);
+                {
+                    let e = w.u.env.clone();
+                    let gas3 = Token { address: gas.clone(), amount: 3 };
+                    let gas2 = Token { address: gas.clone(), amount: 2 };
+                    let other_gas = Token { address: sac.addr.clone(), amount: 3 };
+                    let dep: SVec<Val> = (caller.clone(), BytesN::from_array(&e, &salt2), metadata(&e, b"N", b"S", 6), 10i128, None::<Address>).into_val(&e);
+                    eps[0].other_args.extend(arg_variants(&e, &its, "deploy_interchain_token", dep, vec![
+                        (2, metadata(&e, b"N2", b"S", 6).into_val(&e)),
+                        (2, metadata(&e, b"N", b"S2", 6).into_val(&e)),
+                        (2, metadata(&e, b"N", b"S", 7).into_val(&e)),
+                        (3, 11i128.into_val(&e)),
+                        (3, 0i128.into_val(&e)),
+                        (4, Some(stranger.clone()).into_val(&e)),
+                        (4, Some(other_user.clone()).into_val(&e)),
+                    ]));
+                    let rem: SVec<Val> = (caller.clone(), BytesN::from_array(&e, &salt), sstr(&e, b"ethereum"), gas3.clone()).into_val(&e);
+                    eps[1].other_args.extend(arg_variants(&e, &its, "deploy_remote_interchain_token", rem, vec![
+                        (1, BytesN::from_array(&e, &salt2).into_val(&e)),
+                        (2, sstr(&e, b"avalanche").into_val(&e)),
+                        (3, other_gas.clone().into_val(&e)),
+                    ]));
+                    let can: SVec<Val> = (sac.addr.clone(), sstr(&e, b"ethereum"), payer.clone(), gas3.clone()).into_val(&e);
+                    eps[2].other_args.extend(arg_variants(&e, &its, "deploy_remote_canonical_token", can, vec![
+                        (0, gas.clone().into_val(&e)),
+                        (1, sstr(&e, b"avalanche").into_val(&e)),
+                        (3, other_gas.clone().into_val(&e)),
+                    ]));
+                    let tr: SVec<Val> = (caller.clone(), BytesN::from_array(&e, &id), sstr(&e, b"ethereum"), sbytes(&e, b"0xdest"), 10i128, None::<soroban_sdk::Bytes>, gas2.clone()).into_val(&e);
+                    eps[3].other_args.extend(arg_variants(&e, &its, "interchain_transfer", tr, vec![
+                        (1, BytesN::from_array(&e, &canon_id).into_val(&e)),
+                        (2, sstr(&e, b"avalanche").into_val(&e)),
+                        (5, Some(sbytes(&e, b"data")).into_val(&e)),
+                        (6, gas3.clone().into_val(&e)),
+                        (6, other_gas.into_val(&e)),
+                    ]));
+                }
                 for ep in &eps {
                     matrix(rep, &mut w.u, ep, &stranger, "registered");
+                }
+                // the named addresses have pre-approved the service, the gas service and the gateway
+                // on the token and on the gas token
+                {
+                    let tok_addr = w.token_addr(&id);
+                    let spenders = [its.clone(), w.gs.clone(), w.g.addr.clone(), tok_addr.clone()];
+                    grant_allowances(&mut w.u, &[gas.clone(), tok_addr.clone(), sac.addr.clone()], &caller, &spenders);
+                    grant_allowances(&mut w.u, &[gas.clone(), sac.addr.clone()], &payer, &spenders);
+                    for ep in &eps {
+                        matrix(rep, &mut w.u, ep, &stranger, "registered+allowances-to-services");
+                    }
                 }
             }
             "operators" => {
@@ -513,7 +649,15 @@ pub fn run(ctx: &Ctx, rep: &mut Report) {
                 let mut ep = Ep { valid: true, name: "example.send", named: caller.clone(), counterparty: Some(operator.clone()), owner: Some(owner.clone()), call: mk(5), other_args: one(mk(6)) };
                 ep.other_args.push(mk_msg(b"0xd", b"other message"));
                 ep.other_args.push(mk_msg(b"0xattacker", b"hello"));
+                {
+                    let e = u.env.clone();
+                    let t5 = Token { address: tok.addr.clone(), amount: 5 };
+                    let sd: SVec<Val> = (caller.clone(), sstr(&e, b"dest"), sstr(&e, b"0xd"), sbytes(&e, b"hello"), t5).into_val(&e);
+                    ep.other_args.extend(arg_variants(&e, &ex, "send", sd, vec![(1, sstr(&e, b"dest2").into_val(&e))]));
+                }
                 matrix(rep, &mut u, &ep, &stranger, "funded");
+                grant_allowances(&mut u, &[tok.addr.clone()], &caller, &[ex.clone(), gs.clone(), g.addr.clone()]);
+                matrix(rep, &mut u, &ep, &stranger, "funded+allowances-to-contracts");
             }
         }
     }
